@@ -15,6 +15,27 @@ CHECKS = {
         design_ref="DESIGN.md#c10"),
 }
 
+CHECKS.update({
+    "C03": dict(
+        category="model_checking",
+        technique="TLA+ abstract load semantics (LoadScript) explored by TLC in path mode: every request history up to the bound x documents x encodings x paddings; every behaviour replayed through the public API on memory and four stream kinds at window 8 and 256; observations compared with the events the spec prescribes",
+        text="TLC enumerates all object documents (up to 3 keys incl. typed keys, nested arrays/objects, a 20-byte string) x all request scripts up to the bound (present/absent/repeated keys, both target kinds, nested open/partial read/close, VisitKeys) and checks the property-level invariants (sentinel intact, failed request leaves target unchanged) on the abstract semantics; each state is exported with the prescribed observation and executed on the real MsgPack archive from memory and from stringstream / short-read / non-seekable streams with the reader window shrunk to 8 bytes (every alignment) and at the real 256 bytes with paddings across the boundary.",
+        note="Trusted: TLC, the scripted driver harness (public API only), spec/LoadScript.tla as the statement of the documented semantics. MessagePack archive only so far (JSON/XML/CSV legs are separate work); bounds: scripts <= 2 (quick) / 3 (thorough) requests, documents <= 3 members.",
+        design_ref="DESIGN.md#c03"),
+    "C05": dict(
+        category="model_checking",
+        technique="TLA+ abstract load semantics with Skip policies explored by TLC over well-typed document shapes with every subset (up to the bound) of values replaced by offending values; invariants SkipNeverThrows/SkipKeepsShape; all behaviours replayed on the real archive and compared",
+        text="TLC explores 4 document shapes (array of scalars in typed containers, array of objects, byte containers as bin and as int array, scalars in an array) with up to 2/3 positions replaced by 8 kinds of offending values under both Skip policy combinations, checks on the abstract semantics that no error is raised and neighbours keep their events, and exports each state; the real MsgPack archive executes them from memory and streams at window 8 and 256 and must produce exactly the prescribed events (bool results, targets incl. prior values, sentinel).",
+        note="Trusted: TLC, harness, LoadScript.tla. MessagePack archive only so far. Required()-validator reporting of skipped fields is covered through the isLoaded flag each request logs.",
+        design_ref="DESIGN.md#c05"),
+    "C07": dict(
+        category="model_checking",
+        technique="TLA+ reference MessagePack decoder/encoder (MsgPackFormat) model-checked for self-consistency; TLC enumerates corpus values x legal width policies x typed targets x truncations and single-byte corruptions with the outcome the reference decoder + typed-load semantics prescribe; replayed through both readers",
+        text="MC_MsgPackFormat checks Decode(Enc(v,w))=v, compactness of Enc(v,0) and prefix-freeness for 105 values at every format threshold x 5 width policies x all prefixes. MC_LoadScript (typed mode) enumerates value x encoding x 16 target types x 3 positions x 2 policy settings, every truncation (thorough) and single-byte corruptions; the spec's decoder decides what damaged bytes mean. The real string and stream readers must deliver exactly the prescribed value / policy outcome / ParsingError.",
+        note="Trusted: TLC, harness, the TLA+ transcription of the MessagePack specification. Results for duplicate or exotic map keys and nanoseconds > 999999999 are left unspecified. Known findings: timestamp-96 field order, pre-sizing from declared counts.",
+        design_ref="DESIGN.md#c07"),
+})
+
 NOT_YET = {
 }
 
